@@ -26,6 +26,9 @@ class LookupTask(T.Task):
             return [str(b) for b in BIC.candidates_from_bank_code(self.cc, self.codearg)]
         if self.kind == "from_bank_code":
             return str(BIC.from_bank_code(self.cc, self.codearg))
+        if self.kind == "bic_reverse":
+            b = BIC(self.codearg, allow_invalid=True)
+            return [b.exists, list(b.domestic_bank_codes), list(b.bank_names), list(b.bank_short_names)]
         x = IBAN(self.codearg, allow_invalid=True)
         return [None if x.bic is None else str(x.bic), x.bank and x.bank.get("bic"), x.bank_name, x.bank_short_name]
 
@@ -36,6 +39,10 @@ class LookupTask(T.Task):
             return [payload(x) for x in r]
         if self.kind == "from_bank_code":
             return payload(I.call(I.getattr(BIC, "from_bank_code"), [self.cc, self.codearg], {}))
+        if self.kind == "bic_reverse":
+            b = I.call(BIC, [self.codearg], {"allow_invalid": True})
+            return [I.getattr(b, "exists"), list(I.getattr(b, "domestic_bank_codes")), list(I.getattr(b, "bank_names")),
+                    list(I.getattr(b, "bank_short_names"))]
         x = I.call(IBAN, [self.codearg], {"allow_invalid": True})
         bic = I.getattr(x, "bic")
         bank = I.getattr(x, "bank")
@@ -74,4 +81,7 @@ def specs():
         out.append(("props.lookuptasks", "LookupTask", ("from_bank_code", cc, code)))
     for iban in ("DE89370400440532013000", "PL61109010140000071219812874", "DE89120700000532013000", "GB29XXXX60161331926819"):
         out.append(("props.lookuptasks", "LookupTask", ("iban_accessors", "", iban)))
+    # the reverse direction: BIC -> registry entries (exists, domestic bank codes, names)
+    for bic in ("GENODEM1GLS", "DEUTDEFF", "AAAADEFFXXX"):
+        out.append(("props.lookuptasks", "LookupTask", ("bic_reverse", "", bic)))
     return out
